@@ -316,9 +316,10 @@ Qed.
 (* the correspondence entry point on the example: whole tree and two start nodes *)
 Example ex_run17 :
   match CaseC17.run17 (ex_root, [0; 1; 3]%Z,
-                       [(1%Z, MO false [84; 68]%Z TitleOff [] false true None None)]) with
-  | L [L [L [L d0; L m0; L [_]]; L [_; _; L [_; _]]; L [_; _; L [_; _]]]; L [L chart]] =>
-      length d0 = 4 /\ length m0 = 4 /\ length chart = 13
+                       [(1%Z, MO false [84; 68]%Z TitleOff [] false true None None)],
+                       [(1%Z, DO true true [] [([97], [98])]%Z [] None (Some ([99], [100]))%Z)]) with
+  | L [L [L [L d0; L m0; L [_]]; L [_; _; L [_; _]]; L [_; _; L [_; _]]]; L [L chart]; L [L doc]] =>
+      length d0 = 4 /\ length m0 = 4 /\ length chart = 13 /\ length doc = 17
   | _ => False
   end.
 Proof. vm_compute. repeat split. Qed.
